@@ -193,7 +193,7 @@ func (r *Report) Violate(monitor, sig string, detail, replay any) {
 				n++
 			}
 		}
-		if n >= 20 {
+		if n >= 60 {
 			return
 		}
 	}
